@@ -26,7 +26,7 @@ pub fn boxcox(x: f64, lambda: f64) -> f64 {
 /// Calculates the two-parameter Box-Cox transformation with some power parameter `lambda` and some
 /// shift parameter `alpha`.
 pub fn boxcox_shifted(x: f64, lambda: f64, alpha: f64) -> f64 {
-    assert!(x > alpha, "x must larger than alpha");
+    assert!(x + alpha > 0., "x + alpha must be positive");
     if lambda == 0. {
         (x + alpha).ln()
     } else {
